@@ -1,5 +1,5 @@
 (** C16 — capitalisation fixes change only letter case and reach the policy. Pinned statements only. *)
-From Sq Require Import Base.Bytes Caps.Model Caps.Proofs Caps.Converge.
+From Sq Require Import Base.Bytes Caps.Model Caps.Proofs Caps.Converge Caps.Reach.
 
 (** Whatever the policy (consistent included), the option list and the memory, a reported fix
     changes only ASCII letter case: same length, same text once lower-cased, and a real change. *)
@@ -108,3 +108,28 @@ Theorem C16_consistent_two_pass_from : forall n ig ts m o1 k1 o2 k2,
   pass_from n Consistent ig m o2 = (o2, 0).
 Proof. exact consistent_two_pass_from. Qed.
 Print Assumptions C16_consistent_two_pass_from.
+
+(** Reaching the policy: after one crawl under a concrete policy every token is in the case of the
+    policy, unless its lower-cased text is on the ignore list, or it is empty or templated. *)
+Theorem C16_concrete_pass_reaches : forall n c ig ts m out k,
+  pass_from n (Concrete c) ig m ts = (out, k) ->
+  Forall (fun t => mem (lower (fst t)) ig = true \/ is_empty (fst t) || snd t = true \/ apply c (fst t) = fst t) out.
+Proof. exact concrete_pass_reaches. Qed.
+Print Assumptions C16_concrete_pass_reaches.
+
+(** A crawl is its trace (the calls of handle_segment, which the correspondence group "crawl" compares
+    with the recorder) applied to the tokens; the number of reports is the number of reporting calls. *)
+Theorem C16_pass_is_trace : forall n p ig ts m,
+  pass_from n p ig m ts =
+    (apply_trace ts (trace_from n p ig m ts),
+     N.of_nat (length (filter reported (trace_from n p ig m ts)))).
+Proof. exact pass_is_trace. Qed.
+Print Assumptions C16_pass_is_trace.
+
+(** The ignore list exempts exactly the words on it: any other token is handed to handle_segment. *)
+Theorem C16_not_ignored_is_called : forall n p ig m t ts,
+  mem (lower (fst t)) ig = false ->
+  exists r m', handle n p m (fst t) (snd t) = (m', r)
+    /\ trace_from n p ig m (t :: ts) = Some (fst t, r) :: trace_from n p ig m' ts.
+Proof. exact not_ignored_is_called. Qed.
+Print Assumptions C16_not_ignored_is_called.
